@@ -75,6 +75,7 @@ GENERATORS = [
     ("gen_py", ("py/miniconf-mqtt/miniconf/async_.py", "py/miniconf-mqtt/miniconf/sync.py",
                 "py/miniconf-mqtt/miniconf/common.py"), "Py.lean"),
     ("gen_transcode", ("miniconf/src/node.rs", "miniconf/src/jsonpath.rs", "miniconf/src/tree.rs"), "Transcode.lean"),
+    ("gen_mqtt", "miniconf_mqtt/src/lib.rs", "Mqtt.lean"),
     ("gen_helpers", ("miniconf/src/json.rs", "miniconf/src/postcard.rs"), "Helpers.lean"),
     ("gen_keys", ("miniconf/src/key.rs", "miniconf/src/iter.rs", "miniconf/src/packed.rs"), "Keys.lean"),
     # the OUTPUT of the derive macro (its own source, run by /verif/expander) on every type of the generated corpus
